@@ -369,6 +369,66 @@ def user_engine_runs(M, rec, rng, g, n_nets):
                         break
 
 
+def reconfigured_link_model(M, rec, rng, reps):
+    """A user-defined engine whose link model is re-configured in place between two steps (`engine.link_model = ...`, its
+    `links` property returns it - "dry road" / "wet road"): each step is computed with the model the engine holds THEN,
+    passed explicitly or selected."""
+    from sym_metanet import engines as E
+    from sym_metanet.engines import numpy as EN
+
+    class WetLinks(EN.LinksEngine):
+        @staticmethod
+        def Veq(rho, v_free, rho_crit, a):
+            return 0.8 * v_free * np.exp((-1 / a) * np.power(rho / rho_crit, a))
+
+    class WeatherEngine(EN.Engine):
+        def __init__(self):
+            super().__init__()
+            self.link_model = EN.LinksEngine
+
+        @property
+        def links(self):
+            return self.link_model
+
+    saved = E.get_current_engine()
+    T, tau, eta, kappa = 10 / 3600, 18 / 3600, 60.0, 40.0
+    try:
+        for it in range(reps):
+            N_ = rng.choice((1, 2, 3))
+            link = M.Link(N_, 2, 1.0, 180.0, 33.5, 102.0, 1.867, name="L")
+            net = M.Network().add_path((M.Node(name="A"), link, M.Node(name="B")), origin=M.Origin(name="O"), destination=M.Destination(name="D"))
+            rho = np.array([rng.uniform(10.0, 80.0) for _ in range(N_)])
+            v = np.array([rng.uniform(30.0, 100.0) for _ in range(N_)])
+            eng = WeatherEngine()
+            how = ("explicit", "selected")[it % 2]
+            E.use(eng if how == "selected" else saved)
+            kw_ = dict(T=T, tau=tau, eta=eta, kappa=kappa)
+            if how == "explicit":
+                kw_["engine"] = eng
+            models = [EN.LinksEngine, WetLinks, EN.LinksEngine] if it % 4 < 2 else [WetLinks, EN.LinksEngine, WetLinks]
+            for model in models:
+                eng.link_model = model
+                try:
+                    net.step(init_conditions={link: {"rho": rho.copy(), "v": v.copy()}}, **kw_)
+                    got = np.asarray(link.next_states["v"], float).ravel()
+                    twin = M.Link(N_, 2, 1.0, 180.0, 33.5, 102.0, 1.867, name="L")
+                    tnet = M.Network().add_path((M.Node(name="A"), twin, M.Node(name="B")), origin=M.Origin(name="O"), destination=M.Destination(name="D"))
+                    fresh = WeatherEngine()
+                    fresh.link_model = model
+                    tnet.step(init_conditions={twin: {"rho": rho.copy(), "v": v.copy()}}, engine=fresh, T=T, tau=tau, eta=eta, kappa=kappa)
+                    exp = np.asarray(twin.next_states["v"], float).ravel()
+                except Exception as e:
+                    rec.violation(f"{PROP}:an engine whose link model is re-configured in place: stepping raised {type(e).__name__}", {"exception": repr(e)[:300]})
+                    break
+                rec.count("steps_with_a_reconfigured_link_model")
+                if not np.allclose(got, exp, rtol=1e-12, atol=1e-12, equal_nan=True):
+                    rec.violation(f"{PROP}:a quantity was not computed by the ({how}) engine as it is configured at the time of the step: the link model it held at an earlier step was used",
+                                  {"how": how, "model_now": model.__name__, "next_speeds": got.tolist(), "with_a_fresh_engine_of_that_configuration": exp.tolist()})
+                    break
+    finally:
+        E.use(saved)
+
+
 def selection_histories(M, rec, rng, n_hist):
     import sym_metanet
     from sym_metanet import engines as E
@@ -524,6 +584,7 @@ def run(M, rec, tier, seed, k, n):
         spy_runs(M, rec, rng, g, 45 if tier == "quick" else 700)
         fill_value_engines(M, rec, rng, g, 30 if tier == "quick" else 400)
         user_engine_runs(M, rec, rng, g, 40 if tier == "quick" else 500)
+        reconfigured_link_model(M, rec, rng, 24 if tier == "quick" else 240)
     finally:
         E.use(saved)
 
